@@ -213,6 +213,19 @@ func observeProg(c progCase) *ProgObs {
 			res[i] = showTerm(micro.VerifWalkStar(micro.Var(uint64(i)), st.Substitutions))
 		}
 		o.Resolved = append(o.Resolved, res)
+		// the library's own reifier (what micro.Run hands to the user) on this answer: the resolved query variable with the k-th
+		// distinct unbound variable, left to right, named _k - the same variable always the same name
+		for i := 0; i < c.NQ; i++ {
+			got := micro.ReifyIntVarFromState(uint64(i))(st)
+			if want := firstOccNames(micro.VerifWalkStar(micro.Var(uint64(i)), st.Substitutions)); !want.Equal(got) {
+				o.Notes = append(o.Notes, fmt.Sprintf("reified answer %d, query variable %d: %s, but the resolved value is %s (expected %s)", len(o.Resolved)-1, i, got.String(), res[i], want.String()))
+			}
+		}
+		// ... and on the whole query vector at once (a fresh variable bound to it): names are shared between the variables
+		stv := &micro.State{Substitutions: append(append(micro.Substitutions{}, st.Substitutions...), micro.SubPair{Key: st.Counter, Value: q}), Counter: st.Counter + 1}
+		if got, want := micro.ReifyIntVarFromState(st.Counter)(stv), firstOccNames(micro.VerifWalkStar(q, st.Substitutions)); !want.Equal(got) {
+			o.Notes = append(o.Notes, fmt.Sprintf("reified answer %d: the query vector reifies as %s, expected %s", len(o.Resolved)-1, got.String(), want.String()))
+		}
 		if st.Counter < st0.Counter {
 			o.Extends = false
 		}
